@@ -184,6 +184,22 @@ pub fn gen_ws_conn(r: &mut Rng, nonce: &mut u64, port: u16, allow_faults: bool, 
     } else {
         why.push("no key");
     }
+    // One handshake in eight carries a large but legitimate head: a fat
+    // cookie, or a long run of ordinary headers (browsers send both).
+    let big_head = r.chance(1, 8);
+    if big_head {
+        let n = *r.pick(&[5_000usize, 9_000, 12_000, 20_000, 60_000]);
+        let n = r.usize_in(n / 2, n);
+        if r.chance(1, 2) {
+            let mut v = b"session=".to_vec();
+            v.extend(std::iter::repeat(b'a').take(n));
+            headers.push(("cookie".into(), v));
+        } else {
+            for i in 0..(n / 400).min(90) {
+                headers.push((format!("x-pad-{i}"), vec![b'p'; 380]));
+            }
+        }
+    }
     // header order is free, host first
     let mut tail = headers.split_off(1);
     r.shuffle(&mut tail);
@@ -196,7 +212,9 @@ pub fn gen_ws_conn(r: &mut Rng, nonce: &mut u64, port: u16, allow_faults: bool, 
     // part of what the channel handler reads.  (Bodies that hyper needs three
     // or more decode steps for are not generated: hyper itself then leaks
     // undrained body bytes into the upgraded stream.)
-    let with_body = valid && r.chance(1, 6);
+    // (not together with a large head: over TLS that head spans several
+    // records, the body arrives in pieces, and see above)
+    let with_body = valid && r.chance(1, 6) && !big_head;
     if with_body {
         // (the handshake then reaches the server in one piece, and the 101
         // meets no back-pressure: with an unread request body hyper marks
